@@ -21,9 +21,11 @@ CLAIMS = [
                 "rejected without effect, a resize beyond the maximum is refused with maximum_hashpower_exceeded, an automatic "
                 "expansion below the minimum load factor is refused with load_factor_too_low, an explicit one never consults the load "
                 "factor, and a refused resize returns the table unchanged. The model is tied to /repo by K2 (full answers of all "
-                "limit-related requests incl. structural scan `hp <= mhp` on the real table). PARTIAL: the reachable-state statements "
-                "(hp <= mhp as an invariant of every operation, rehash/reserve postconditions) are proved only to the extent listed "
-                "in DESIGN.md section 12; the rest is correspondence-checked.",
+                "limit-related requests incl. structural scan `hp <= mhp` on the real table; the oracle also checks `at least as large as "
+                "requested` after every rehash/reserve). Size guarantees: rehash_at_least, reserve_at_least (for representable requests), "
+                "rehash_flag, insert_never_shrinks, hp_never_exceeds_limit (any run), rehash/reserve_keeps_contents. PARTIAL: `exactly as large "
+                "as requested when growing` is not proved (a rebuild may expand again for adversarial hash functions; the model replicates "
+                "that and K2 compares the exact hashpower).",
         "design_ref": "DESIGN.md 6/C10, 12",
         "note": "Trusted: Lean kernel; K2 harness + reference-map oracle; Float comparison load_factor()<minimum_load_factor() is opaque "
                 "in the theorems (IEEE double in the driver).",
